@@ -196,8 +196,40 @@ def ob_tg_crop(mode, rebase, timeout):
     )
 
 
+def ob_rebase_shared_boundary_ieee(mode, timeout):
+    """binary64: with rebasing every timestamp is shifted by the same amount - each one is the
+    single rounded difference x - cropStart, so the boundary shared by two abutting intervals
+    stays one value and a valid window never raises"""
+    names = ["a", "b", "s0", "e0", "e1"]
+
+    def pre(a, b, s0, e0, e1):
+        return finite(a, b, s0, e0, e1) & (0.0 <= a) & (a <= s0) & (s0 < e0) & (e0 < e1) & (e1 <= b) & (b <= 1048576.0)
+
+    def body(a, b, s0, e0, e1):
+        tier = IntervalTier("t", [Interval(s0, e0, "x"), Interval(e0, e1, "y")], 0.0, b)
+        r = tier.crop(a, b, mode, True)
+        es = r.entries
+        if len(es) != 2:
+            return "entry count"
+        if es[0][1] != es[1][0]:
+            return "the shared boundary of two abutting intervals was split by rebasing"
+        if (es[0][0], es[0][1], es[1][1]) != (s0 - a, e0 - a, e1 - a):
+            return "a timestamp is not x - cropStart"
+        if (r.minTimestamp, r.maxTimestamp) != (0.0, b - a):
+            return "span is not [0, b-a]"
+        return True
+
+    return Ob("icrop-rebase-shared-boundary-ieee-%s" % mode, F(*names), body, pre, fmode="ieee", timeout=timeout, funcs=FUNCS[:1] + FUNCS[4:], bounds="two abutting intervals inside the window, all binary64 values in [0, 2^20]")
+
+
 def obligations(tier):
     obs = []
+    from harness import fp_kernels
+
+    obs += fp_kernels.c06_obligations(tier)
+    if tier == "thorough":  # the same claim through the whole public function (slow: the tier constructor's tolerant comparisons)
+        for mode in MODES:
+            obs.append(ob_rebase_shared_boundary_ieee(mode, 1800))
     if tier == "quick":
         for mode in MODES:
             obs.append(ob_interval_crop(2, mode, False, "ieee", 120))
